@@ -63,8 +63,9 @@ impl<T: From<String>> syn::parse::Parse for Separatable<T> {
             serialize   = Some(l.value().into());
             deserialize = Some(l.value().into());
 
-        } else if input.peek(token::Brace) {
-            let b; syn::braced!(b in input);
+        } else if input.peek(token::Paren) {
+            /* `rename(serialize = "...", deserialize = "...")` */
+            let b; syn::parenthesized!(b in input);
             while let Ok(i) = b.parse::<Ident>() {
                 let _ = b.parse::<token::Eq>()?;
                 let l = b.parse::<LitStr>()?;
